@@ -8,8 +8,6 @@ package main
 import (
 	"fmt"
 	"os"
-	"sort"
-	"strings"
 
 	metav1 "k8s.io/apimachinery/pkg/apis/meta/v1"
 	"k8s.io/apimachinery/pkg/util/intstr"
@@ -67,39 +65,26 @@ func runGateway(dir string, in input) ([]int, bool) {
 	for i := range out {
 		out[i] = -1
 	}
-	attached := false
-	var ids []string
-	for id := range p.Config().Backends().Items() {
-		ids = append(ids, id)
-	}
-	sort.Strings(ids)
-	for _, id := range ids {
-		if !strings.HasPrefix(id, "ns1_rt_") {
+	// the weights as rendered in the files written through the real template
+	ws, attached := renderedWeights(p, "ns1_rt_")
+	seen := map[int]map[int]bool{}
+	for ip, w := range ws {
+		var g, a, b int
+		if _, err := fmt.Sscanf(ip, "10.%d.%d.%d", &g, &a, &b); err != nil {
 			continue
 		}
-		attached = true
-		seen := map[int]map[int]bool{}
-		for _, ep := range p.Config().Backends().Items()[id].Endpoints {
-			if ep.IsEmpty() {
-				continue
-			}
-			var g, a, b int
-			if _, err := fmt.Sscanf(ep.IP, "10.%d.%d.%d", &g, &a, &b); err != nil {
-				continue
-			}
-			if seen[g-1] == nil {
-				seen[g-1] = map[int]bool{}
-			}
-			seen[g-1][ep.Weight] = true
+		if seen[g-1] == nil {
+			seen[g-1] = map[int]bool{}
 		}
-		for g, ws := range seen {
-			if len(ws) == 1 {
-				for w := range ws {
-					out[g] = w
-				}
-			} else {
-				out[g] = -2 // servers of one group with different weights
+		seen[g-1][w] = true
+	}
+	for g, wset := range seen {
+		if len(wset) == 1 {
+			for w := range wset {
+				out[g] = w
 			}
+		} else {
+			out[g] = -2 // servers of one group with different weights
 		}
 	}
 	return out, attached
